@@ -633,7 +633,18 @@ def _bits(t, cons, width):
             tw = INT_BITS[ty] - (1 if ty[0] == 'i' else 0)
             res = [res[j] if j < tw else 0 for j in range(width)]
         return res
-    if k in ('cmp', 'not'):
+    if k == 'cmp':
+        # (x != 0) / (x > 0) / (x >= 1) / (x == m) where x has a single possibly-set bit m: the value is that bit
+        op, a, b = t[1], t[2], t[3]
+        if b[0] == 'c':
+            xb = bits_of(a, cons, width)
+            if xb is not None:
+                nz = [j for j in range(width) if xb[j] != 0]
+                if len(nz) == 1 and xb[nz[0]] not in (1, UNK):
+                    m = 1 << nz[0]
+                    if (op == 'ne' and b[1] == 0) or (op == 'gt' and b[1] == 0) or (op == 'ge' and b[1] == 1 and m == 1) \
+                            or (op == 'eq' and b[1] == m) or (op == 'ge' and b[1] == m):
+                        return [xb[nz[0]]] + [0] * (width - 1)
         return None
     return None
 
